@@ -69,7 +69,9 @@ static void gen_addr(vh_rng_t *rng)
     snprintf(app_cfg.lookups, sizeof(app_cfg.lookups), "%s", lk[vh_below(rng, 4)]);
   }
   if (vh_chance(rng, 1, 3)) {
-    snprintf(app_cfg.sortlist, sizeof(app_cfg.sortlist), "10.3.0.0/255.255.0.0 10.1.0.0/16 fd5e::/16");
+    /* IPv6: a pattern every answer address matches, or one that only every third address matches (those move to
+     * the front, past two or more others when the answer is long enough) */
+    snprintf(app_cfg.sortlist, sizeof(app_cfg.sortlist), "10.3.0.0/255.255.0.0 10.1.0.0/16 %s", vh_chance(rng, 1, 2) ? "fd5e::/16" : "fd5e:100::/24");
   }
   mon_enable_idx = mon_enable_timer = 0;
   mon_enable_net                    = 0;
@@ -529,6 +531,28 @@ static void mon_addr(void)
       if (rank == lastrank && rank == 2 && idx < lastidx && !ad_plan.dup_every && sim_faults_fired == 0) {
         /* (a failed source-address probe legitimately moves its destination behind the others) */
         vh_violation("addr:sortlist-unstable", "'%s': addresses of equal rank returned out of answer order (%d after %d)", t->name, idx, lastidx);
+        return;
+      }
+      lastrank = rank;
+      lastidx  = idx;
+    }
+  }
+  if (t->kind == RK_GETHOSTBYNAME && t->family == AF_INET6 && strstr(app_cfg.sortlist, "fd5e:100::/24")) {
+    int lastrank = -1, lastidx = -1;
+    MON_EVAL("addr_sortlist_rank_v6");
+    for (i = 0; i < t->naddr; i++) {
+      int idx, rank;
+      if ((t->addr_key[i] >> 28) != 6 || t->addr_raw[i][0] != 0xfd || t->addr_raw[i][1] != 0x5e) {
+        continue;
+      }
+      idx  = (int)((t->addr_key[i] >> 16) & 0xfff);
+      rank = t->addr_raw[i][2] == 1 ? 0 : 1;
+      if (rank < lastrank) {
+        vh_violation("addr:sortlist-rank", "'%s': IPv6 address matching the sortlist returned after one that does not", t->name);
+        return;
+      }
+      if (rank == lastrank && idx < lastidx && !ad_plan.dup_every && sim_faults_fired == 0) {
+        vh_violation("addr:sortlist-unstable", "'%s': IPv6 addresses of equal rank returned out of answer order (%d after %d)", t->name, idx, lastidx);
         return;
       }
       lastrank = rank;
